@@ -368,10 +368,22 @@ pub fn c01(tier: &str) -> (Vec<Space>, Focus) {
         c.extend(cfgs_stream_plain(&[SApi::StreamWith, SApi::Stream], &REVS, 0, false, false));
         c
     };
+    // the same without limit 2 for five of the six methods (quick tier, n=3 T=2)
+    let a1b = apis.clone();
+    let main_cfgs_light = move |s: &Spec| {
+        let mut c = cfgs_plain(s.n, &a1b, &[None], &REVS);
+        c.extend(cfgs_plain(s.n, &a1b[..1], &[Some(2)], &REVS));
+        c.extend(cfgs_stream_plain(&[SApi::StreamWith, SApi::Stream], &REVS, 0, false, false));
+        c
+    };
     let mut specs: Vec<Spec> = (0..=2).flat_map(|n| decl_specs(n, 2)).collect();
     specs.extend(decl_specs(3, 1));
     v.push(space("all DAGs x declarations, n<=2 T=2 and n=3 T=1; 6 concurrent _with APIs x order x limit{None,2}; stream, stream_with", specs, None, main_cfgs.clone()));
-    v.push(space("all DAGs x declarations, n=3 T=2; same configurations", decl_specs(3, 2), None, main_cfgs.clone()));
+    if tier == "thorough" {
+        v.push(space("all DAGs x declarations, n=3 T=2; same configurations", decl_specs(3, 2), None, main_cfgs.clone()));
+    } else {
+        v.push(space("all DAGs x declarations, n=3 T=2; 6 concurrent _with APIs x order (limit 2 for for_each_concurrent_with only); stream, stream_with", decl_specs(3, 2), None, main_cfgs_light));
+    }
     // interrupts and failures on graphs with declarations
     let a2 = apis.clone();
     let stress = move |s: &Spec| {
@@ -383,10 +395,8 @@ pub fn c01(tier: &str) -> (Vec<Space>, Focus) {
     let specs: Vec<Spec> = (1..=3).flat_map(|n| decl_specs(n, 1)).collect();
     v.push(space("n<=3 T=1 with interrupt at every point / every failing subset", specs, None, stress.clone()));
     // n=4: reduced configuration menu in the quick tier, the full one in the thorough tier
-    v.push(space("all DAGs x declarations, n=4 T=1; for_each_concurrent_with x order, try_for_each_concurrent_mut_with", decl_specs(4, 1), None, |s| {
-        let mut c = cfgs_plain(s.n, &[Api { kind: Kind::ForEach, mutable: false, with: true }], &[None], &REVS);
-        c.extend(cfgs_plain(s.n, &[Api { kind: Kind::TryForEach, mutable: true, with: true }], &[None], &FWD));
-        c
+    v.push(space("all DAGs x declarations, n=4 T=1; for_each_concurrent_with x order", decl_specs(4, 1), None, |s| {
+        cfgs_plain(s.n, &[Api { kind: Kind::ForEach, mutable: false, with: true }], &[None], &REVS)
     }));
     if tier == "thorough" {
         v.push(space("all DAGs x declarations, n=4 T=1; main configurations", decl_specs(4, 1), None, main_cfgs));
